@@ -43,7 +43,8 @@ Definition add_file (known : list hash) (last : list dline) (p : path) (m : meta
                    else (EReg p m (fsize data) data,
                          {| d_line := {| l_unique := true; l_hash := H data; l_size := fsize data; l_path := p |}; d_fp := f |}, H data :: known) in
     match last_lookup p last with
-    | Some dl => if fp_eqb f (d_fp dl) then ext (l_hash (d_line dl)) else by_hash
+    | Some dl => if fp_eqb f (d_fp dl) && (fsize data =? l_size (d_line dl))   (* size check: repair of F6, commit d28d72c *)
+                 then ext (l_hash (d_line dl)) else by_hash
     | None => by_hash
     end.
 
@@ -111,7 +112,7 @@ Proof.
                     {| d_line := {| l_unique := u; l_hash := h; l_size := fsize d; l_path := p |}; d_fp := f |}, if u then H d :: known else known) /\ h = H d /\ (u = true -> fsize d <> 0)).
           { destruct (hmem (H d) known); [exists false, (H d) | exists true, (H d)]; repeat split; auto; discriminate. }
           destruct (last_lookup p last) as [dl|] eqn:El; [|exact Hby].
-          destruct (fp_eqb f (d_fp dl)) eqn:Ef; [|exact Hby].
+          destruct (fp_eqb f (d_fp dl) && (fsize d =? l_size (d_line dl))) eqn:Ef0; [|exact Hby]. apply andb_true_iff in Ef0 as [Ef _].
           exists false, (l_hash (d_line dl)). split; [reflexivity|]. split; [|discriminate].
           eapply Hft; eauto. now left. }
       destruct Hadd as (u & h & -> & -> & Hu).
@@ -220,7 +221,7 @@ Proof.
       - repeat split; auto. intros _ _. left. now apply hmem_In.
       - split; [right; auto|]. repeat split; auto. discriminate. }
     destruct (last_lookup p last) as [dl|] eqn:El; [|apply (Hby e l k); exact E].
-    destruct (fp_eqb f (d_fp dl)) eqn:Ef; [|apply (Hby e l k); exact E].
+    destruct (fp_eqb f (d_fp dl) && (fsize d =? l_size (d_line dl))) eqn:Ef0; [|apply (Hby e l k); exact E]. apply andb_true_iff in Ef0 as [Ef _].
     inversion E; subst. cbn. repeat split; auto. intros _ _. right. exists dl. auto.
 Qed.
 
